@@ -2,6 +2,7 @@ package imapclient
 
 import (
 	"fmt"
+	"sort"
 	"strings"
 	"time"
 	"unicode"
@@ -88,6 +89,26 @@ func (c *Client) UIDSearch(criteria *imap.SearchCriteria, options *imap.SearchOp
 
 func (c *Client) handleSearch() error {
 	cmd := findPendingCmdByType[*SearchCommand](c)
+	// The numbers are added to the set in ascending order once the response
+	// has been read: adding them one by one in the order the server wrote
+	// them is quadratic for a long descending list.
+	var nums []uint32
+	defer func() {
+		if cmd == nil {
+			return
+		}
+		sort.Slice(nums, func(i, j int) bool { return nums[i] < nums[j] })
+		switch all := cmd.data.All.(type) {
+		case imap.SeqSet:
+			all.AddNum(nums...)
+			cmd.data.All = all
+		case imap.UIDSet:
+			for _, num := range nums {
+				all.AddNum(imap.UID(num))
+			}
+			cmd.data.All = all
+		}
+	}()
 	for c.dec.SP() {
 		if c.dec.Special('(') {
 			var name string
@@ -110,16 +131,7 @@ func (c *Client) handleSearch() error {
 		if !c.dec.ExpectNumber(&num) || !c.dec.Expect(num != 0, "non-zero message number") {
 			return c.dec.Err()
 		}
-		if cmd != nil {
-			switch all := cmd.data.All.(type) {
-			case imap.SeqSet:
-				all.AddNum(num)
-				cmd.data.All = all
-			case imap.UIDSet:
-				all.AddNum(imap.UID(num))
-				cmd.data.All = all
-			}
-		}
+		nums = append(nums, num)
 	}
 	return nil
 }
